@@ -1536,6 +1536,7 @@ end EquivC11
 -- NO-HYPOTHESES: PysparklingVerif.C17.stats_any_partitioning
 -- NO-HYPOTHESES: PysparklingVerif.C17.stats_any_merge_tree
 -- NO-HYPOTHESES: PysparklingVerif.C17.cov_any_partitioning
+-- NO-HYPOTHESES: PysparklingVerif.C19.scalar_classes_exact
 -- NO-HYPOTHESES: PysparklingVerif.C18.cast_int_wraps
 -- NO-HYPOTHESES: PysparklingVerif.C18.cast_bool_wraps
 -- NO-HYPOTHESES: PysparklingVerif.C18.wrap_in_range
